@@ -100,6 +100,19 @@ def install():
             outs = fixed
         return outs
 
+    base_set_static = I.set_static
+
+    def set_static(self, eng, st, ci, name, val):
+        if name == "_buffered_collections" and isinstance(val, Z) and val.hint is None and val.meta.get("fresh_container"):
+            # cls._buffered_collections = <a dict built in a local>: the dict becomes an object of its own
+            a = smt.fresh("regaddr'", IntS)
+            st.assume(a >= st.g["Alloc"])
+            st.g["Alloc"] = a + 1
+            st.upd("Cell", a, val.term)
+            val = Z(VRef(a), "dict", {"static": (ci.name, name)})
+        return base_set_static(self, eng, st, ci, name, val)
+
+    I.set_static = set_static
     I.b_hashlib_md5 = b_hashlib_md5
     I.b_md5_update = b_md5_update
     I.b_md5_hexdigest = b_md5_hexdigest
